@@ -55,6 +55,19 @@ def abstract(cd, lang):
     return [classes, inhs]
 
 
+def abstract_incl(cd):
+    """the RAW diagram the include / forward-declaration computation works on (Model/UmlIncl.v idiagram): fully qualified type names,
+    modifiers, multiplicities, inheritance and association ends as the objects hold them"""
+    classes = []
+    for cid, c in cd.classes.items():
+        ats = [[a.TYPE, a.TYPE_MODIFIER, a.MULTIPLICITY] for a in c.ATTRIBUTES]
+        ops = [[o.RETURN_TYPE, o.RETURN_TYPE_MODIFIER, [[p["type"], p["modifier"], p["multiplicity"]] for p in o.PARAMETERS]] for o in c.OPERATIONS]
+        classes.append([cid, c.NAME, c.NAMESPACE, bb(c.PURE_VIRTUAL_INTERFACE), ats, ops])
+    inhs = [[i.CLASS_TO_ID, i.CLASS_FROM_ID, i.CLASS_FROM, bb(i.IS_REALIZATION)] for i in cd.inheritence.values()]
+    assocs = [[a.TYPE, a.CLASS_FROM_ID, a.CLASS_FROM, a.CLASS_TO_ID, a.CLASS_TO, a.CLASS_FROM_MULTIPLICITY, a.CLASS_TO_MULTIPLICITY] for a in cd.associations.values()]
+    return [classes, inhs, assocs]
+
+
 def abstract_cs(cd, lang):
     """the abstract diagram as LanguageCsharp renders it: parameter types with their ref / out prefix (no const), defaults and array
     extents through the C# helpers; constness of operations is passed on and erased by the model (UmlCs.cs_view)"""
@@ -395,6 +408,7 @@ def probe_names(label="TestClassDiagram"):
     names += ["redeclare-renamed-params", "nonconst-twin", "rename-to-interface-name"]
     names += ["long-member-names"]
     names += ["virtual-word"]
+    names += ["class-outside-packages", "class-name-inside-namespace-name"]
     return names
 
 
@@ -459,6 +473,28 @@ def apply_probe(cd, probe):
             c.OPERATIONS.append(cp)
             touched.append(c.NAME)
         return sorted(set(touched))
+    if kind == "class-outside-packages":
+        # every class that holds a member of a class type by value and is not used by another class moves out of its package
+        used = {a.TYPE for c in cd.classes.values() for a in c.ATTRIBUTES} | {i.CLASS_FROM for i in cd.inheritence.values()} | \
+               {x for a in cd.associations.values() for x in (a.CLASS_FROM, a.CLASS_TO)} | \
+               {p["type"] for c in cd.classes.values() for o in c.OPERATIONS for p in o.PARAMETERS} | {o.RETURN_TYPE for c in cd.classes.values() for o in c.OPERATIONS}
+        touched = []
+        for c in cd.classes.values():
+            fq = c.NAMESPACE + "::" + c.NAME
+            needs = [a.TYPE for a in c.ATTRIBUTES if "::" in a.TYPE and "*" not in a.TYPE_MODIFIER and "&" not in a.TYPE_MODIFIER]
+            if c.NAMESPACE and needs and fq not in used and not (c.IS_ENUM or c.AUTOGEN):
+                c.NAMESPACE = ""
+                touched.append(c.NAME)
+        return touched
+    if kind == "class-name-inside-namespace-name":
+        # the package of the first class that another class holds by value is renamed so that its name CONTAINS the class name
+        for c in cd.classes.values():
+            users = [k for k in cd.classes.values() if k is not c and k.NAMESPACE != c.NAMESPACE and
+                     any(a.TYPE == c.NAMESPACE + "::" + c.NAME and "*" not in a.TYPE_MODIFIER and "&" not in a.TYPE_MODIFIER for a in k.ATTRIBUTES)]
+            if users and c.NAMESPACE and "::" not in c.NAMESPACE:
+                rename_namespace(cd, c.NAMESPACE, "X" + c.NAME + "s")
+                return [c.NAME] + [k.NAME for k in users]
+        return []
     if kind == "virtual-word":
         # the first operation of every realised pure virtual interface is called virtualizeN (abstract, so that the keyword is written too)
         # and gets a parameter called _virtualAddress: the word 'virtual' in names must survive realisation
